@@ -444,6 +444,9 @@ func init() {
 	})
 }
 
+// c17Param is a parameter type outside the universe (nothing else makes it).
+type c17Param struct{ N int64 }
+
 type c17Out struct {
 	am.Struct
 	V T3 `argmapper:",typeOnly"`
@@ -608,7 +611,14 @@ func runC17(c *CaseCtx) (res CaseResult) {
 			res.violate("C06", "panic/result-"+crashKey(fmt.Sprint(p)), fmt.Sprintf("panicked: %v", p), det)
 		}
 	}()
-	ft := reflect.FuncOf(nil, outT, false)
+	// a redefined function may have one parameter that only a converter can
+	// make, so that a call of it can be made to fail INSIDE (see below)
+	withParam := redef && !once && r.Intn(2) == 0
+	var inT []reflect.Type
+	if withParam {
+		inT = []reflect.Type{reflect.TypeOf(c17Param{})}
+	}
+	ft := reflect.FuncOf(inT, outT, false)
 	execs := 0
 	fn := reflect.MakeFunc(ft, func([]reflect.Value) []reflect.Value { execs++; return vals })
 	var opts []am.Arg
@@ -622,7 +632,8 @@ func runC17(c *CaseCtx) (res CaseResult) {
 	}
 	callee := f
 	hasErr := k > 0 && outT[k-1] == errT
-	if redef {
+	var callArgs []am.Arg
+	if redef && !withParam {
 		rf, err := f.Redefine()
 		if err != nil {
 			res.violate("C08", "refused-although-permitted", "Redefine of a parameterless function failed: "+err.Error(), det)
@@ -630,12 +641,40 @@ func runC17(c *CaseCtx) (res CaseResult) {
 		}
 		callee = rf
 	}
+	if withParam {
+		// the parameter is made from a T4 by a converter that fails on demand
+		failNext := false
+		convErr := errors.New("conversion failure inside the redefined function")
+		conv := func(x T4) (c17Param, error) {
+			if failNext {
+				return c17Param{}, convErr
+			}
+			return c17Param{N: x.ID}, nil
+		}
+		rf, err := f.Redefine(am.Converter(conv), am.FilterInput(am.FilterType(types[4])))
+		if err != nil {
+			res.violate("C08", "refused-although-permitted", "Redefine through a converter failed: "+err.Error(), det)
+			return res
+		}
+		callee = rf
+		callArgs = []am.Arg{am.Typed(T4{ID: 3})}
+		// history: one call of the redefined function fails inside; the
+		// next ones are ordinary calls again
+		failNext = true
+		bad := callee.Call(callArgs...)
+		failNext = false
+		res.Evals++
+		if bad.Err() != convErr {
+			res.violate("C04", "error-not-verbatim", fmt.Sprintf("a converter failed inside the redefined function; Err() = %v", bad.Err()), det)
+		}
+		res.obs("redefined_functions_called_after_a_failing_call", 1)
+	}
 	reps := 1
-	if once {
+	if once || withParam {
 		reps = 3
 	}
 	for rep := 0; rep < reps; rep++ {
-		rr := callee.Call()
+		rr := callee.Call(callArgs...)
 		res.Evals++
 		expLen := k
 		if hasErr {
@@ -836,6 +875,9 @@ func runC16(c *CaseCtx) (res CaseResult) {
 		}
 		for k := range got {
 			delete(got, k)
+		}
+		if r.Intn(4) == 0 {
+			pollute(r)
 		}
 		rr := f.Call(calls...)
 		res.Evals++
